@@ -100,7 +100,7 @@ func writeEvidence(verif, prop, tier string, seed uint64, cfg tierCfg, total *St
 var expectedProbes = map[string][]string{
 	"C14": {"round-trip-judged", "stdin-crossed-4096", "o-write-failed-after-some-sectors", "status-judged-against-documents"},
 	"C13": {"damaged-artefact-accepted", "consumer-rejected-with-status-2", "library-error-reported-as-status-2", "patch-accepted-on-a-stale-or-foreign-target", "operator-written-artefact-read"},
-	"C15": {"multi-add-hunk-rendered-as-json-patch", "void-addition-rendered-as-merge-patch", "hand-written-merge-hunks-rendered-as-merge-patch", "merge-patch-read-under-permuted-map-order", "live-document-patched-in-place-with-live-diff", "map-range-with-3+-keys-permuted", "history-re-executed-in-another-order", "history-compared-between-cold-and-warm-process"},
+	"C15": {"multi-add-hunk-rendered-as-json-patch", "void-addition-rendered-as-merge-patch", "hand-written-merge-hunks-rendered-as-merge-patch", "merge-patch-read-under-permuted-map-order", "live-document-patched-in-place-with-live-diff", "map-range-with-3+-keys-permuted", "history-re-executed-in-another-order", "history-compared-between-cold-and-warm-process", "history-compared-with-and-without-fresh-package-state-in-one-long-process"},
 }
 
 func orEmpty(s []string) []string {
